@@ -7,7 +7,7 @@
    (harness/cmd/hx-c10: real instances, real validators), not by a theorem. *)
 From Coq Require Import List NArith ZArith Bool.
 From SSV Require Import Qbft.Model Qbft.Compact Qbft.Honest Qbft.Bridge Qbft.SyncRound Qbft.SyncGeneric
-     Qbft.RecoverGeneric Qbft.HonestGate Qbft.HonestGateRound.
+     Qbft.RecoverGeneric Qbft.RecoverPrepared Qbft.HonestGate Qbft.HonestGateRound.
 From SSV Require Validation.Model Gen.ValidationConsts Validation.ProofsPanic Validation.ProofsTime Validation.Rules
      Validation.HonestRound Validation.HonestTime Validation.HonestEnvelope.
 Import ListNotations.
@@ -91,19 +91,22 @@ Print Assumptions C10_leader_guard_admits_reachable_rounds.
    [c_round (co m) = s_round s] of C10_leader_proposal_valid is exactly what the timing assumptions
    provide (operators are at most one round apart), and is needed. *)
 
-(* ---- the composition with the gate, for the fault-free first round ------------------------------------------
+(* ---- the composition with the gate ---------------------------------------------------------------------------
    Second sentence of the property ("in a fault-free run with in-order timely delivery every such message is
-   accepted"), for the consensus messages of the first round, proved for EVERY committee of distinct non-zero
-   ids, every quorum in 1..n, every height < 2^63, every leader, every consensus role, and for ANY arrival
-   order (stronger than in-order) - each message at most once, each validated while the peer's beacon clock is
-   in the duty's slot (any second and nanosecond of it).
-
-   (1) is the protocol side (C07's theorem read as "what is broadcast"): every operator of the protocol model
-   broadcasts exactly [round_broadcasts].  (2) runs those broadcasts, wrapped in the envelope a peer receives
-   ([envelope_of]: gate_msg is the validator's view of a protocol message), through the validation model's
-   entry point [V.run] - the model hx-val ties to the real validator - from a validator state that has seen
-   nothing of the duty: every result is Accept.  Later rounds, partial-signature messages and delivery at
-   other offsets of the window are explored by hx-c10 with real controllers and validators, not proved. *)
+   accepted") for the consensus messages of a round, proved for EVERY committee of distinct non-zero ids, every
+   quorum in 1..n, every height < 2^63, every leader, every consensus role, both entry points, and for ANY arrival
+   order (stronger than in-order) - each message at most once, each validated while the peer's beacon clock is in
+   the duty's slot (any second and nanosecond of it) - for three rounds of the protocol model:
+     the fault-free first round                                   (C07_sync_fault_free_generic),
+     round 2 of the recovery from a silent first round            (C07_recovery_from_silent_round),
+     round 2 of the recovery from a prepared first round          (C07_recovery_from_prepared_round).
+   The *_broadcasts theorems are the protocol side: the messages in question are (among) what every operator of the
+   protocol model broadcasts.  The *_is_accepted theorems run them, wrapped in the envelope a peer receives
+   ([envelope_of]: gate_msg is the validator's view of a protocol message), through the validation model's entry
+   point [V.run] - the model hx-val ties to the real validator - from a validator state in which every signer has
+   no state or a state of an earlier round of the duty ([before_round]): every result is Accept.  Rounds above 2,
+   decided aggregates, partial-signature messages and delivery at other offsets of the window are explored by
+   hx-c10 with real controllers and validators, not proved. *)
 Theorem C10_fault_free_round_broadcasts : forall (qc : cfg) (h ld : N),
   NoDup (committee qc) -> ~ In 0 (committee qc) ->
   1 <= quorum qc -> quorum qc <= N.of_nat (length (committee qc)) ->
@@ -119,57 +122,77 @@ Theorem C10_fault_free_round_broadcasts : forall (qc : cfg) (h ld : N),
 Proof. exact every_operator_broadcasts_round_broadcasts. Qed.
 Print Assumptions C10_fault_free_round_broadcasts.
 
-Theorem C10_fault_free_round_is_accepted : forall (qc : cfg) (h ld : N),
-  ~ In 0 (committee qc) -> proposer qc h FIRST_ROUND = Some ld -> h <= 9223372036854775807 ->
-  forall (vc : V.cfg) (sh : V.share) (vid role fdlen : N) (p2p : bool) (rawlen dlen pkprefix : N),
-  VP.wf_cfg vc -> V.get_share vc vid = Some sh -> V.s_committee sh = committee qc ->
-  V.s_liquidated sh = false -> V.s_has_meta sh = true -> V.s_attesting sh = true ->
-  dlen <> 0 -> dlen <= VC.maxConsensusMsgSize -> VC.messageOffset < rawlen -> rawlen <= VC.maxEncodedMsgSize ->
-  (N.eqb role VC.roleValidatorRegistration || N.eqb role VC.roleVoluntaryExit) = false ->
-  V.valid_role role = true -> fdlen <> 0 ->
-  forall (l : list ((Z * Z) * smsg)) (vs : V.vstate),
-  HR.before_round h VC.firstRound (V.get_cs (vid, role) vs) ->
-  NoDup (map snd l) ->
-  Forall (fun x => HE.in_slot vc h (fst x) /\ In (snd x) (all_broadcasts qc h ld)) l ->
-  Forall (eq V.Accept)
-         (snd (V.run vc vs (map (fun x => (fst x, envelope_of vc vid role fdlen p2p rawlen dlen pkprefix (snd x))) l))).
-Proof. exact fault_free_round_is_accepted. Qed.
-Print Assumptions C10_fault_free_round_is_accepted.
-
-(* [before_round h rho cs]: every signer has no state, or a state of this duty from a round below rho *)
-Theorem C10_fresh_validator_is_before_any_round : forall h rho k, HR.before_round h rho (V.get_cs k []).
-Proof. intros h rho k s. reflexivity. Qed.
-Print Assumptions C10_fresh_validator_is_before_any_round.
-
-(* The recovery round after a silent first round (C07_recovery_from_silent_round), through the gate: what the live
-   operators broadcast in round 2 - unprepared round changes, the leader's proposal justified by the first quorum
-   of them, prepares, commits ([round2_broadcasts]; it is part of what the protocol model broadcasts:
-   C10_recovery_round_broadcasts) - delivered in ANY order, each at most once, at any instant of the duty's slot,
-   to a peer whose validator saw nothing or only round 1 of the duty, is all Accepted. *)
 Theorem C10_recovery_round_broadcasts : forall c h ld1 ld2 live i m,
   In m (round2_broadcasts c h ld2 live i) -> In m (recover_bcasts c h ld1 ld2 live i).
 Proof. exact round2_in_recover_bcasts. Qed.
 Print Assumptions C10_recovery_round_broadcasts.
 
-Theorem C10_recovery_round_is_accepted : forall (qc : cfg) (h ld2 : N) (live : list N),
-  ~ In 0 (committee qc) -> (forall y, In y live -> In y (committee qc)) ->
-  proposer qc h R2 = Some ld2 -> h <= 9223372036854775807 ->
-  forall (vc : V.cfg) (sh : V.share) (vid role fdlen : N) (p2p : bool) (rawlen dlen pkprefix : N),
-  VP.wf_cfg vc -> V.get_share vc vid = Some sh -> V.s_committee sh = committee qc ->
-  V.s_liquidated sh = false -> V.s_has_meta sh = true -> V.s_attesting sh = true ->
-  dlen <> 0 -> dlen <= VC.maxConsensusMsgSize -> VC.messageOffset < rawlen -> rawlen <= VC.maxEncodedMsgSize ->
-  (N.eqb role VC.roleValidatorRegistration || N.eqb role VC.roleVoluntaryExit) = false ->
-  V.valid_role role = true -> fdlen <> 0 ->
-  forall (l : list ((Z * Z) * smsg)) (vs : V.vstate),
-  HR.before_round h 2 (V.get_cs (vid, role) vs) ->
-  NoDup (map snd l) ->
-  Forall (fun x => HE.in_slot vc h (fst x) /\ In (snd x) (all_broadcasts2 qc h ld2 live)) l ->
-  Forall (eq V.Accept)
-         (snd (V.run vc vs (map (fun x => (fst x, envelope_of2 vc vid role fdlen p2p rawlen dlen pkprefix (snd x))) l))).
-Proof. exact recovery_round_is_accepted. Qed.
-Print Assumptions C10_recovery_round_is_accepted.
+Theorem C10_prepared_recovery_round_broadcasts : forall c h ld1 ld2 live i m,
+  In m (round2p_broadcasts c h ld1 ld2 live i) -> In m (prepared_bcasts c h ld1 ld2 live i).
+Proof. exact round2p_in_prepared_bcasts. Qed.
+Print Assumptions C10_prepared_recovery_round_broadcasts.
 
-(* the timing assumption is what it says: any instant of the duty's slot passes the slot and round windows *)
+Section Gate.
+Variables (qc : cfg) (h : N).
+Variables (vc : V.cfg) (sh : V.share) (vid role fdlen : N) (p2p : bool) (rawlen dlen pkprefix : N).
+
+(* what is assumed of the peer: it knows the validator with this committee, the share is active, and the envelope
+   and payload sizes are inside the limits *)
+Definition peer_ok : Prop :=
+  ~ In 0 (committee qc) /\ h <= 9223372036854775807 /\
+  VP.wf_cfg vc /\ V.get_share vc vid = Some sh /\ V.s_committee sh = committee qc /\
+  V.s_liquidated sh = false /\ V.s_has_meta sh = true /\ V.s_attesting sh = true /\
+  dlen <> 0 /\ dlen <= VC.maxConsensusMsgSize /\ VC.messageOffset < rawlen /\ rawlen <= VC.maxEncodedMsgSize /\
+  (N.eqb role VC.roleValidatorRegistration || N.eqb role VC.roleVoluntaryExit) = false /\
+  V.valid_role role = true /\ fdlen <> 0.
+
+Definition all_accepted (rho : N) (B : list smsg) : Prop :=
+  forall (l : list ((Z * Z) * smsg)) (vs : V.vstate),
+  HR.before_round h rho (V.get_cs (vid, role) vs) ->
+  NoDup (map snd l) ->
+  Forall (fun x => HE.in_slot vc h (fst x) /\ In (snd x) B) l ->
+  Forall (eq V.Accept)
+         (snd (V.run vc vs (map (fun x => (fst x, envelope_of vc vid role fdlen p2p rawlen dlen pkprefix (snd x))) l))).
+
+Theorem C10_fault_free_round_is_accepted : forall ld,
+  peer_ok -> proposer qc h FIRST_ROUND = Some ld -> all_accepted VC.firstRound (all_broadcasts qc h ld).
+Proof.
+  intros ld (A1 & A2 & A3 & A4 & A5 & A6 & A7 & A8 & A9 & A10 & A11 & A12 & A13 & A14 & A15) Hld.
+  exact (fault_free_round_is_accepted qc h A1 A2 vc sh vid role fdlen p2p rawlen dlen pkprefix
+           A3 A4 A5 A6 A7 A8 A9 A10 A11 A12 A13 A14 A15 ld Hld).
+Qed.
+
+Theorem C10_recovery_round_is_accepted : forall ld2 live,
+  peer_ok -> (forall y, In y live -> In y (committee qc)) -> proposer qc h R2 = Some ld2 ->
+  all_accepted 2 (all_broadcasts2 qc h ld2 live).
+Proof.
+  intros ld2 live (A1 & A2 & A3 & A4 & A5 & A6 & A7 & A8 & A9 & A10 & A11 & A12 & A13 & A14 & A15) Hlive Hld.
+  exact (recovery_round_is_accepted qc h A1 A2 vc sh vid role fdlen p2p rawlen dlen pkprefix
+           A3 A4 A5 A6 A7 A8 A9 A10 A11 A12 A13 A14 A15 ld2 live Hlive Hld).
+Qed.
+
+Theorem C10_prepared_recovery_round_is_accepted : forall ld1 ld2 live,
+  peer_ok -> (forall y, In y live -> In y (committee qc)) -> proposer qc h R2 = Some ld2 ->
+  all_accepted 2 (all_broadcasts2p qc h ld1 ld2 live).
+Proof.
+  intros ld1 ld2 live (A1 & A2 & A3 & A4 & A5 & A6 & A7 & A8 & A9 & A10 & A11 & A12 & A13 & A14 & A15) Hlive Hld.
+  exact (prepared_recovery_round_is_accepted qc h A1 A2 vc sh vid role fdlen p2p rawlen dlen pkprefix
+           A3 A4 A5 A6 A7 A8 A9 A10 A11 A12 A13 A14 A15 ld1 ld2 live Hlive Hld).
+Qed.
+
+End Gate.
+Print Assumptions C10_fault_free_round_is_accepted.
+Print Assumptions C10_recovery_round_is_accepted.
+Print Assumptions C10_prepared_recovery_round_is_accepted.
+
+(* [before_round h rho cs]: every signer has no state, or a state of this duty from a round below rho;
+   a validator that has seen nothing is before any round *)
+Theorem C10_fresh_validator_is_before_any_round : forall h rho k, HR.before_round h rho (V.get_cs k []).
+Proof. intros h rho k s. reflexivity. Qed.
+Print Assumptions C10_fresh_validator_is_before_any_round.
+
+(* the timing assumption is what it says: any instant of the duty's slot passes the slot window, and rounds 1 and 2
+   are inside the round window *)
 Theorem C10_own_slot_is_inside_the_windows : forall c now role h rho,
   VP.wf_cfg c -> VT.wf_time c now -> VR.true_slot c (fst now) = Z.of_N h -> rho <= 2 ->
   V.validate_slot_time c h role (V.time_unix (fst now) (snd now)) = None /\
@@ -177,35 +200,43 @@ Theorem C10_own_slot_is_inside_the_windows : forall c now role h rho,
 Proof. intros; split; [apply HT.own_slot_passes_slot_time|apply HT.own_slot_round_in_window]; assumption. Qed.
 Print Assumptions C10_own_slot_is_inside_the_windows.
 
-(* non-vacuity: four operators, height 1000 (leader 1), the mainnet clock, an attester duty; all nine broadcasts of
-   the round delivered in REVERSE order (commits first, the proposal last) 3.5 s into slot 1000 are accepted *)
+(* non-vacuity: four operators, height 1000 (leaders 1, 2), the mainnet clock, an attester duty, 3.5 s into slot 1000.
+   (a) all nine broadcasts of the fault-free round in REVERSE order (commits first, the proposal last);
+   (b) the ten round-2 messages of the recovery from a silent round (operator 1 silent), reversed, to a peer that has
+       already seen a round-1 prepare of operator 3;
+   (c) the ten round-2 messages of the recovery from a prepared round, reversed, after the whole first round. *)
 Definition c10_share : V.share :=
   {| V.s_liquidated := false; V.s_has_meta := true; V.s_attesting := true; V.s_quorum := 3; V.s_committee := [1; 2; 3; 4] |}.
 Definition c10_vcfg : V.cfg :=
   {| V.c_genesis := 1606824023; V.c_slot_dur := 12; V.c_spe := 32; V.c_perm_epoch := 0; V.c_domain := 3;
      V.c_shares := [c10_share] |}.
 Definition c10_now : Z * Z := (1606836026%Z, 500000000%Z).
-Definition c10_deliveries : list ((Z * Z) * smsg) :=
-  map (fun m => (c10_now, m)) (rev (all_broadcasts (sync_cfg 4) 1000 1)).
+Definition c10_env := envelope_of c10_vcfg 1 0 8 true 400 200 77.
+Definition c10_at_now (ms : list smsg) := map (fun m => (c10_now, c10_env m)) ms.
+
+Example C10_peer_ok_example : peer_ok (sync_cfg 4) 1000 c10_vcfg c10_share 1 0 8 400 200.
+Proof.
+  unfold peer_ok. repeat split; try (vm_compute; congruence); try (vm_compute; reflexivity).
+  - vm_compute. intros H. repeat (destruct H as [H|H]; [discriminate H|]). exact H.
+  - vm_compute. repeat constructor.
+Qed.
 
 Example C10_fault_free_round_example :
   proposer (sync_cfg 4) 1000 FIRST_ROUND = Some 1 /\
-  V.get_share c10_vcfg 1 = Some c10_share /\ V.s_committee c10_share = committee (sync_cfg 4) /\
-  VR.true_slot c10_vcfg (fst c10_now) = 1000%Z /\ length c10_deliveries = 9%nat /\
-  snd (V.run c10_vcfg [] (map (fun x => (fst x, envelope_of c10_vcfg 1 0 8 true 400 200 77 (snd x))) c10_deliveries))
-  = repeat V.Accept 9.
+  VR.true_slot c10_vcfg (fst c10_now) = 1000%Z /\ length (all_broadcasts (sync_cfg 4) 1000 1) = 9%nat /\
+  snd (V.run c10_vcfg [] (c10_at_now (rev (all_broadcasts (sync_cfg 4) 1000 1)))) = repeat V.Accept 9.
 Proof. vm_compute. repeat split; reflexivity. Qed.
 
-(* the recovery round of C07_recovery_example (operator 1, leader of round 1, silent; operators 2, 3, 4 recover under
-   leader 2) delivered in reverse order to a peer that has already seen the round-1 prepare of operator 3 *)
-Definition c10_deliveries2 : list ((Z * Z) * smsg) :=
-  map (fun m => (c10_now, m)) (rev (all_broadcasts2 (sync_cfg 4) 1000 2 [2; 3; 4])).
-
 Example C10_recovery_round_example :
-  proposer (sync_cfg 4) 1000 R2 = Some 2 /\ length c10_deliveries2 = 10%nat /\
-  let '(vs1, r1) := V.run c10_vcfg [] [(c10_now, envelope_of c10_vcfg 1 0 8 true 400 200 77
-                                           (msg_of (sync_cfg 4) 1000 T_PREPARE 3 (hash (start_value 1)) None))] in
+  proposer (sync_cfg 4) 1000 R2 = Some 2 /\ length (all_broadcasts2 (sync_cfg 4) 1000 2 [2; 3; 4]) = 10%nat /\
+  let '(vs1, r1) := V.run c10_vcfg [] (c10_at_now [msg_of (sync_cfg 4) 1000 T_PREPARE 3 (hash (start_value 1)) None]) in
   r1 = [V.Accept] /\
-  snd (V.run c10_vcfg vs1 (map (fun x => (fst x, envelope_of2 c10_vcfg 1 0 8 true 400 200 77 (snd x))) c10_deliveries2))
-  = repeat V.Accept 10.
+  snd (V.run c10_vcfg vs1 (c10_at_now (rev (all_broadcasts2 (sync_cfg 4) 1000 2 [2; 3; 4])))) = repeat V.Accept 10.
+Proof. vm_compute. repeat split; reflexivity. Qed.
+
+Example C10_prepared_recovery_round_example :
+  length (all_broadcasts2p (sync_cfg 4) 1000 1 2 [2; 3; 4]) = 10%nat /\
+  let '(vs1, r1) := V.run c10_vcfg [] (c10_at_now (all_broadcasts (sync_cfg 4) 1000 1)) in
+  r1 = repeat V.Accept 9 /\
+  snd (V.run c10_vcfg vs1 (c10_at_now (rev (all_broadcasts2p (sync_cfg 4) 1000 1 2 [2; 3; 4])))) = repeat V.Accept 10.
 Proof. vm_compute. repeat split; reflexivity. Qed.
